@@ -198,6 +198,22 @@ class SetOf(ArrayType):
                                     Tag.SET,
                                     element_type)
 
+    def encode_content(self, data, values=None):
+        # X.690 11.6: the element encodings are sorted in ascending
+        # order, the shorter padded with trailing zero octets for
+        # the comparison.
+        encoded_elements = []
+
+        for entry in data:
+            encoded_element = bytearray()
+            self.element_type.encode(entry, encoded_element)
+            encoded_elements.append(bytes(encoded_element))
+
+        length = max([len(element) for element in encoded_elements] + [0])
+        encoded_elements.sort(key=lambda element: element.ljust(length, b'\x00'))
+
+        return bytearray().join(encoded_elements)
+
 
 class UTF8String(StringType):
 
